@@ -17,6 +17,8 @@ structure CtrB where
   flags : String := ""
   state : String := "created"
   told : String := "-"           -- cpuset the runtime was last told
+  toldMems : String := "-"       -- memory nodes the plugin last told
+  rtMems : String := "-"         -- memory nodes the runtime has (its own value, overlaid by what the plugin told)
   deriving Repr
 
 structure DefB where
@@ -47,6 +49,8 @@ structure SnapB where
   idleClass : String := "-"
   blns : List BlnB := []
   members : List (String × String × Nat × Bool) := []
+  memInfo : List (String × Option Nat × Bool) := []    -- member container: allocator zone (mask), memory pinning in effect for its balloon
+  memReqs : List String := []                          -- ids the memory allocator holds requests for
   classes : List (String × List Nat) := []
 
 structure St where
@@ -88,6 +92,7 @@ def parseCpuList (s : String) : List Nat :=
 def kv (s key : String) : Option String :=
   if s.startsWith (key ++ "=") then some (s.drop (key.length + 1)).toString else none
 
+def maskBits (m : Nat) : List Nat := (List.range 64).filter (fun i => m.testBit i)
 def sub (a b : List Nat) : Bool := a.all (b.contains ·)
 def disj (a b : List Nat) : Bool := a.all (fun x => !b.contains x)
 def sameSet (a b : List Nat) : Bool := sub a b && sub b a
@@ -172,6 +177,22 @@ def checkState (st : St) : List String :=
     let n := (s.blns.filter (·.defn == d.name)).length
     let errs := if n < d.minB then errs ++ [s!"C02:fewer-balloons-than-min {d.name} {n}<{d.minB}"] else errs
     if d.maxB > 0 && n > d.maxB then errs ++ [s!"C02:more-balloons-than-max {d.name} {n}>{d.maxB}"] else errs) errs
+  -- C04 (balloons half): a pinned container's memory nodes as told are the allocator's zone, non-empty
+  let errs := s.memInfo.foldl (fun errs mi =>
+    match getCtr st mi.1, mi.2.1 with
+    | some c, some z =>
+      if mi.2.2 && flag c.flags "pm" != "T" && (c.state == "created" || c.state == "running") then
+        let told := parseCpuList c.rtMems
+        let errs := if !sameSet told (maskBits z) then errs ++ [s!"C04:balloons-mems-differ-from-allocator-zone {c.id} told {c.rtMems} zone {maskBits z}"] else errs
+        if (maskBits z).isEmpty then errs ++ [s!"C04:empty-mems {c.id}"] else errs
+      else errs
+    | _, _ => errs) errs
+  -- C09 (balloons half): the memory allocator holds nothing for containers that are stopped or gone
+  let errs := s.memReqs.foldl (fun errs id =>
+    match getCtr st id with
+    | some c => if c.state == "removed-unstopped" then errs ++ [s!"C09:grant-leak-after-remove-without-stop memory of {id}"]
+                else if c.state == "stopped" || c.state == "removed" || c.state == "refused" then errs ++ [s!"C09:memory-held-for-dead-container {id} ({c.state})"] else errs
+    | none => errs ++ [s!"C09:memory-held-for-unknown-container {id}"]) errs
   -- CPU classes
   let errs := s.allowed.foldl (fun errs c =>
     let cls := (s.classes.filter (·.2.contains c)).map (·.1)
@@ -215,6 +236,7 @@ def parseEvCtr (spec : String) : Option CtrB :=
   | _ => none
 
 def cpusOfRes (r : String) : String := (r.splitOn "|").headD "-"
+def memsOfRes (r : String) : String := (r.splitOn "|").getD 1 "-"
 
 def step (st : St) (toks : List String) : St × List Issue :=
   match toks with
@@ -273,9 +295,31 @@ def step (st : St) (toks : List String) : St × List Issue :=
       ((upd.replace "#" ",").replace ";" ",").splitOn "," |>.filterMap fun u => match u.splitOn "=" with
         | [id, r] => some (id, cpusOfRes r)
         | _ => none
+    let upsM : List (String × String) := if upd == "-" then [] else
+      ((upd.replace "#" ",").replace ";" ",").splitOn "," |>.filterMap fun u => match u.splitOn "=" with
+        | [id, r] => some (id, memsOfRes r)
+        | _ => none
+    let cfgChange := st.lastEv.head? == some "reconfig" && st.lastEv != ["reconfig", "same"]
+    -- C12: opted-out containers are never told (different) memory nodes
+    let c12 := fun (st : St) (id m : String) (cur : String) (flags : String) =>
+      if m == "-" then [] else
+      let e1 := if flag flags "pm" == "T" && m != cur then [s!"C12:memory-preserve-container-told-mems {id} {cur} -> {m}"] else []
+      let e2 := match st.snap.memInfo.find? (·.1 == id) with
+        | some (_, _, pinMem) => if !pinMem && !cfgChange then [s!"C12:mems-told-with-pinning-disabled {id} {m}"] else []
+        | none => []
+      e1 ++ e2
+    let (st, early) := upsM.foldl (fun (acc : St × List Issue) (id, m) =>
+      match getCtr acc.1 id with
+      | some c =>
+        let (st', is) := report acc.1 (c12 acc.1 id m c.rtMems c.flags)
+        (st', acc.2 ++ is)
+      | none => acc) (st, early)
     let st := match st.lastEv with
-      | ["create", spec, _] => match parseEvCtr spec with
-        | some c => setCtr st { c with state := "created", told := (if adj == "nil" then "-" else cpusOfRes adj) }
+      | ["create", spec, base] => match parseEvCtr spec with
+        | some c =>
+          let am := if adj == "nil" then "-" else memsOfRes adj
+          setCtr st { c with state := "created", told := (if adj == "nil" then "-" else cpusOfRes adj), toldMems := am,
+                             rtMems := (if am != "-" then am else memsOfRes base) }
         | none => st
       | ["start", id] => (match getCtr st id with | some c => setCtr st { c with state := "running" } | none => st)
       | ["stop", id] => (match getCtr st id with | some c => setCtr st { c with state := "stopped" } | none => st)
@@ -300,6 +344,10 @@ def step (st : St) (toks : List String) : St × List Issue :=
           setCtr st { c with told := cp }
         else st
       | none => st) st
+    let st := upsM.foldl (fun st (id, m) =>
+      match getCtr st id with
+      | some c => if m != "-" then setCtr st { c with toldMems := m, rtMems := m } else st
+      | none => st) st
     (st, early)
   | ["V", view] =>
     let cv := if view == "-" then [] else (view.splitOn ",").filterMap fun e => match e.splitOn ":" with
@@ -321,8 +369,10 @@ def step (st : St) (toks : List String) : St × List Issue :=
       let b : BlnB := ⟨defn, i, c, sh, (if ctrs == "-" then [] else ctrs.splitOn ","), r⟩
       ({ st with snap := { st.snap with blns := st.snap.blns ++ [b] } }, [])
     | _, _, _, _ => (st, [⟨.parse, "BB"⟩])
-  | ["BC", id, defn, inst, hide] =>
-    ({ st with snap := { st.snap with members := st.snap.members ++ [(id, defn, inst.toNat?.getD 0, hide == "T")] } }, [])
+  | ["BC", id, defn, inst, hide, zone, pm] =>
+    ({ st with snap := { st.snap with members := st.snap.members ++ [(id, defn, inst.toNat?.getD 0, hide == "T")],
+                                      memInfo := st.snap.memInfo ++ [(id, zone.toNat?, pm == "T")] } }, [])
+  | ["BM", ids] => ({ st with snap := { st.snap with memReqs := if ids == "-" then [] else ids.splitOn "," } }, [])
   | ["BK", cls, cpus] =>
     match pset cpus with
     | some c => ({ st with snap := { st.snap with classes := st.snap.classes ++ [(cls, c)] } }, [])
